@@ -139,10 +139,7 @@ func genNewCol(t *rapid.T, name string, n int, wide bool) newCol {
 			c.Col.F[i] = hx.GenFloat(t, true)
 		}
 	case "cfloat":
-		v := hx.GenFloat(t, true)
-		if v == 0 {
-			v = 0 // the sign of a zero constant is not preserved
-		}
+		v := hx.GenFloat(t, true) // (-0.0 included: "constants repeated", D24)
 		c.Col = hx.Col{Name: name, Kind: hx.KFloat, F: make([]float64, n)}
 		for i := range c.Col.F {
 			c.Col.F[i] = v
